@@ -95,7 +95,8 @@ Theorem s_disconnect_leaves_nothing : forall s c, mem c (conns s) = true ->
 Proof.
   intros s c Hm. cbn [sstep]. rewrite Hm. unfold on_disconnected. cbv zeta.
   set (s0 := semit (upd_conns s (del c (conns s))) (SDrop c)).
-  set (s1 := upd_qm s0 (a_del (qm s0) c)).
+  set (sq := upd_qm s0 (a_del (qm s0) c)).
+  set (s1 := upd_removed sq (c :: del c (removed sq))).
   set (s2 := if running s1 then upd_reqC s1 (reqC s1 ++ [c]) else s1).
   set (s3 := upd_pendm s2 (a_del (pendm s2) c)).
   set (s4 := fold_left (fun st cb => semit st (SCb c cb 0 K_DISC)) (cbs_of s3 c) s3).
@@ -105,7 +106,7 @@ Proof.
   { induction l as [|x l IH]; intros st; [auto|]. cbn [fold_left]. destruct (IH (semit st (SCb c x 0 K_DISC))) as (A & B & C). auto. }
   destruct (F (cbs_of s3 c) s3) as (Fq & Fp & Fd). fold s4 in Fq, Fp, Fd.
   assert (Q : qof (set_cbs s4 c []) c = None).
-  { unfold qof. change (qm (set_cbs s4 c [])) with (qm s4). rewrite Fq. subst s3 s2 s1. destruct (running _); cbn; apply a_get_del_same. }
+  { unfold qof. change (qm (set_cbs s4 c [])) with (qm s4). rewrite Fq. subst s3 s2 s1 sq. destruct (running _); cbn; apply a_get_del_same. }
   assert (P : pendof (set_cbs s4 c []) c = 0).
   { unfold pendof. change (pendm (set_cbs s4 c [])) with (pendm s4). rewrite Fp. subst s3. cbn. rewrite a_get_del_same. reflexivity. }
   destruct (drain (set_cbs s4 c [])); repeat split; try exact Q; try exact P;
@@ -150,11 +151,12 @@ Proof. intros H. unfold view, qof, pendof, cbs_of. cbn. rewrite a_get_del_other 
 Lemma view_on_disconnected s c d : c <> d -> view (on_disconnected s c) d = view s d.
 Proof.
   intros H. unfold on_disconnected. cbv zeta.
-  set (s1 := upd_qm s (a_del (qm s) c)).
+  set (sq := upd_qm s (a_del (qm s) c)).
+  set (s1 := upd_removed sq (c :: del c (removed sq))).
   set (s2 := if running s1 then upd_reqC s1 (reqC s1 ++ [c]) else s1).
   set (s3 := upd_pendm s2 (a_del (pendm s2) c)).
   set (s4 := fold_left (fun st cb => semit st (SCb c cb 0 K_DISC)) (cbs_of s3 c) s3).
-  assert (V1 : view s1 d = view s d) by (apply view_upd_qm_del_other; exact H).
+  assert (V1 : view s1 d = view s d) by (change (view s1 d) with (view sq d); apply view_upd_qm_del_other; exact H).
   assert (V2 : view s2 d = view s d) by (subst s2; destruct (running s1); [exact V1|exact V1]).
   assert (V3 : view s3 d = view s d) by (subst s3; rewrite view_upd_pendm_del_other by exact H; exact V2).
   assert (V4 : view s4 d = view s d) by (subst s4; rewrite (view_fold_semit (fun cb => SCb c cb 0 K_DISC)); exact V3).
@@ -252,12 +254,13 @@ Qed.
 Lemma only_about_on_disconnected c s : only_about c s (on_disconnected s c).
 Proof.
   unfold on_disconnected. cbv zeta.
-  set (s1 := upd_qm s (a_del (qm s) c)).
+  set (sq := upd_qm s (a_del (qm s) c)).
+  set (s1 := upd_removed sq (c :: del c (removed sq))).
   set (s2 := if running s1 then upd_reqC s1 (reqC s1 ++ [c]) else s1).
   set (s3 := upd_pendm s2 (a_del (pendm s2) c)).
   set (s4 := fold_left (fun st cb => semit st (SCb c cb 0 K_DISC)) (cbs_of s3 c) s3).
   assert (A3 : only_about c s s3).
-  { apply only_about_same_str. subst s3 s2 s1. destruct (running _); reflexivity. }
+  { apply only_about_same_str. subst s3 s2 s1 sq. destruct (running _); reflexivity. }
   assert (A4 : only_about c s s4) by (eapply only_about_trans; [exact A3|apply only_about_fold]).
   assert (A5 : only_about c s (set_cbs s4 c [])).
   { eapply only_about_trans; [exact A4|]. apply only_about_same_str. reflexivity. }
